@@ -275,9 +275,9 @@ func genDocument(r *vlib.Rng) genDoc {
 	for p := 0; p < nPages; p++ {
 		var items []gItem
 		if p == 0 {
-			body.WriteString("<section>")
+			body.WriteString(`<section class="s0">`)
 		} else {
-			body.WriteString(`<section class="pb">`)
+			fmt.Fprintf(&body, `<section class="pb s%d">`, p)
 		}
 		// transformed wrappers (nesting <= 3) around runs of 0-3 of the following items: ids,
 		// links and headings come before, inside and after nested transformed boxes
@@ -484,6 +484,51 @@ func genDocument(r *vlib.Rng) genDoc {
 	if r.Chance(1, 4) {
 		pageExtra = `@page { @top-center { content: "p" counter(page); border: 1px solid red } @bottom-left { content: "x"; background: linear-gradient(red, blue) } } html { background: #eee } `
 		g.Tags["margin-boxes"] = true
+	}
+	// pages of different sizes (Write converts every page with ITS OWN height): @page :first,
+	// :left / :right, named pages (sections s0.. get a `page:` name), each with its own width,
+	// height, and sometimes margin / bleed; ids, links and headings sit on every page
+	if r.Chance(3, 5) {
+		pgSize := func() string {
+			w, h := vlib.Pick(r, []int{200, 300, 350, 400, 500, 640}), vlib.Pick(r, []int{240, 450, 600, 700, 750, 800, 1000, 1300})
+			s := fmt.Sprintf("size: %dpx %dpx;", w, h)
+			if r.Chance(1, 8) {
+				s = fmt.Sprintf("size: %s;", vlib.Pick(r, []string{"A5", "A6 landscape", "5in 7in", "12cm", "B5 portrait"}))
+			}
+			if r.Chance(1, 4) {
+				s += fmt.Sprintf(" margin: %dpx;", vlib.Pick(r, []int{0, 3, 12}))
+			}
+			if r.Chance(1, 6) {
+				s += fmt.Sprintf(" bleed: %s;", vlib.Pick(r, []string{"0", "4px", "12px"}))
+			}
+			return s
+		}
+		mode := r.Intn(4)
+		if mode == 0 || r.Chance(1, 3) {
+			pageExtra += fmt.Sprintf("@page :first { %s } ", pgSize())
+			g.Tags["page-first"] = true
+		}
+		if mode == 1 {
+			for _, side := range []string{"left", "right"} {
+				if r.Chance(3, 4) {
+					pageExtra += fmt.Sprintf("@page :%s { %s } ", side, pgSize())
+				}
+			}
+			g.Tags["page-left-right"] = true
+		}
+		if mode >= 2 {
+			names := []string{"pga", "pgb", "pgc"}
+			for _, nm := range names {
+				pageExtra += fmt.Sprintf("@page %s { %s } ", nm, pgSize())
+			}
+			// consecutive sections may share a name (no extra break) or have none (the default page)
+			for p := 0; p < nPages; p++ {
+				if r.Chance(3, 4) {
+					pageExtra += fmt.Sprintf("section.s%d { page: %s } ", p, vlib.Pick(r, names))
+				}
+			}
+			g.Tags["page-named"] = true
+		}
 	}
 	css := fmt.Sprintf(`@page { size: %dpx %dpx; margin: %dpx; %s} %sbody { font: 10px Ahem; margin: 0 } section.pb { break-before: page } p, h1, h2, h3, h4, h5, h6 { margin: 2px 0; font-size: 10px }`,
 		g.PageW, g.PageH, vlib.Pick(r, []int{0, 5, 10}), bleed, pageExtra)
